@@ -185,6 +185,36 @@ def default_kwargs_for(h):
     return {}
 
 
+PROCESS_ZONES = [None, None, None, "America/Los_Angeles", None, None, "Asia/Kathmandu", None, None, None, "EST5", None, "Australia/Lord_Howe", None, None, None]
+
+
+def tz_for(h):
+    """the time zone of the PROCESS while generated history h runs (None = the zone the check runs in, UTC): the database stores instants, so
+    no answer may depend on it; the harness hands in and reads back aware datetimes only, the model knows instants only"""
+    return PROCESS_ZONES[(h // 4) % len(PROCESS_ZONES)]
+
+
+class process_zone:
+    def __init__(self, tz):
+        self.tz = tz
+
+    def __enter__(self):
+        import time
+        self.old = os.environ.get("TZ")
+        if self.tz:
+            os.environ["TZ"] = self.tz
+            time.tzset()
+
+    def __exit__(self, *a):
+        import time
+        if self.tz:
+            if self.old is None:
+                os.environ.pop("TZ", None)
+            else:
+                os.environ["TZ"] = self.old
+            time.tzset()
+
+
 def run_tie(ck, tf, n_hist, profile, configs=CONFIGS, corpus=(), kwargs_for=None, extra_cases=()):
     """returns dict(divergences=[...], stats=...)"""
     kwargs_for = kwargs_for or default_kwargs_for
@@ -203,14 +233,19 @@ def run_tie(ck, tf, n_hist, profile, configs=CONFIGS, corpus=(), kwargs_for=None
         ops = sanitize_for(kw if csv else None, g.history(csv))
         cases.append((csv, auto, ops, None))
         meta.append(("gen", h) if kw is None else ("gen", h, {k: str(v) for k, v in kw.items()}))
+        if tz_for(h):
+            meta[-1] = meta[-1] + ({"process_TZ": tz_for(h)},) if len(meta[-1]) == 2 else meta[-1][:2] + (dict(meta[-1][2], process_TZ=tz_for(h)),)
     for (csv, auto, ops) in extra_cases:
         cases.append((csv, auto, ops, None))
         meta.append(("enumerated", len(cases)))
-    done, kws = [], []
+    done, kws, tzs = [], [], []
     for ci, (csv, auto, ops, _) in enumerate(cases):
         kw = kwargs_for(meta[ci][1]) if (kwargs_for and meta[ci][0] == "gen") else None
         kws.append(kw if csv else None)
-        outs = dbimpl.run_history(tf, csv, auto, ops, str(ck.work / f"h{ci}"), kw)
+        tz = tz_for(meta[ci][1]) if meta[ci][0] == "gen" else None
+        tzs.append(tz)
+        with process_zone(tz):
+            outs = dbimpl.run_history(tf, csv, auto, ops, str(ck.work / f"h{ci}"), kw)
         done.append((csv, auto, ops, outs))
         for o, x in zip(ops, outs):
             kinds[op_kind(o)] += 1
@@ -235,7 +270,7 @@ def run_tie(ck, tf, n_hist, profile, configs=CONFIGS, corpus=(), kwargs_for=None
             continue
         for j in range(0, len(nums), 2):
             divergences.append((base + nums[j], nums[j + 1]))
-    return dict(cases=cases, meta=meta, kws=kws, divergences=divergences, failed_files=failed_files,
+    return dict(cases=cases, meta=meta, kws=kws, tzs=tzs, divergences=divergences, failed_files=failed_files,
                 stats=dict(op_kinds=dict(kinds), error_kinds=dict(errs), db_sizes=dict(sizes)))
 
 
@@ -333,7 +368,7 @@ def db_check(pid, tier, seed, profile, n_quick, n_thorough, prop_module, claims_
         csv, auto, ops, outs = cases[ci]
         if (ci, k) in mine:
             continue
-        ck.violation({"kind": "failing-input", "config": {"csv": csv, "auto_index": auto, "TZ": os.environ.get("TZ", "UTC"), "storage_kwargs": res["kws"][ci] or {}},
+        ck.violation({"kind": "failing-input", "config": {"csv": csv, "auto_index": auto, "TZ": res["tzs"][ci] or os.environ.get("TZ", "UTC"), "storage_kwargs": res["kws"][ci] or {}},
                       "ops": ops[:k + 1], "first_differing_step": k, "implementation_output": outs[k], "spec_output": want,
                       "attributed_to": pid, "origin": res["meta"][ci],
                       "why": "the implementation's answer differs from the documented meaning (harness/pyspec.py) although it agrees with the Coq model"})
@@ -352,7 +387,7 @@ def db_check(pid, tier, seed, profile, n_quick, n_thorough, prop_module, claims_
                 k, spec = later[0]
                 ops, impl_out, genuine = cases[ci][2][:k + 1], outs[k], True
         replay = {"kind": "failing-input" if genuine else "correspondence-broken",
-                  "config": {"csv": csv, "auto_index": auto, "TZ": os.environ.get("TZ", "UTC"), "storage_kwargs": res["kws"][ci] or {}},
+                  "config": {"csv": csv, "auto_index": auto, "TZ": res["tzs"][ci] or os.environ.get("TZ", "UTC"), "storage_kwargs": res["kws"][ci] or {}},
                   "ops": ops, "first_differing_step": k, "implementation_output": impl_out,
                   "spec_output": spec, "model_output_coq": model_outputs(ck, (csv, auto, ops, outs), k),
                   "attributed_to": pid, "origin": res["meta"][ci],
